@@ -27,7 +27,7 @@ Definition spec_gcps (below : list sframe) : Z :=
   end.
 
 (* ---- a whole x86 walk through FPO records (round 4): walk_stack's loop restricted to the STACK WIN FPO technique
-   (allocates_base_pointer = false: ebp is passed through), on the 32-bit abstract walker.  [lookup] = the symbol file
+   on the 32-bit abstract walker.  [lookup] = the symbol file
    seen from an instruction pointer: the FPO record covering it and the parameter_size fill_symbol gives the frame
    (None = no FUNC/PUBLIC record); [in_stack] = walk_stack's "stack pointer still inside the stack memory" test for
    frames the unwinder produced itself.  x86::get_caller_frame ends the walk on eip < 4096 or a stack pointer that
@@ -36,13 +36,17 @@ Record xregs := mkX { x_eip : Z; x_esp : Z; x_ebp : Z }.
 
 Definition fpo_step (mem : Z -> option Z) (below : list sframe) (callee : sframe) (r : xregs) (i : win_info) : option xregs :=
   let E := frames_env (fun n => assoc n [(N_eip, x_eip r); (N_esp, x_esp r); (N_ebp, x_ebp r)]) mem 0 below callee in
-  match walk_win_fpo (mock_ops 4) E i false m_init with
-  | (s, true) =>
-      match m_regs s N_eip, m_regs s N_esp, m_regs s N_ebp with
-      | SetTo a, SetTo b, SetTo c => Some (mkX a b c)
-      | _, _, _ => None
+  match w_thing i with
+  | ProgramString _ => None        (* not an FPO record *)
+  | AllocatesBasePointer abp =>
+      match walk_win_fpo (mock_ops 4) E i abp m_init with
+      | (s, true) =>
+          match m_regs s N_eip, m_regs s N_esp, m_regs s N_ebp with
+          | SetTo a, SetTo b, SetTo c => Some (mkX a b c)
+          | _, _, _ => None
+          end
+      | (_, false) => None
       end
-  | (_, false) => None
   end.
 
 Fixpoint fpo_walk (fuel : nat) (mem : Z -> option Z) (in_stack : Z -> bool) (lookup : Z -> option (win_info * option Z))
@@ -77,7 +81,7 @@ Fixpoint fpo_layout (mem : Z -> option Z) (in_stack : Z -> bool) (lookup : Z -> 
   | [] => True
   | (i, ps, ra) :: rest =>
       let F := w_locals i + w_saved i + gcps in
-      lookup eip = Some (i, ps) /\ (ctx = false -> in_stack esp = true) /\
+      lookup eip = Some (i, ps) /\ w_thing i = AllocatesBasePointer false /\ (ctx = false -> in_stack esp = true) /\
       win_frame_size i gcps = Some F /\ 0 <= F /\
       mem (esp + F) = Some ra /\ 4096 <= ra < 2 ^ 32 /\ esp + F + 4 < 2 ^ 32 /\
       (ctx = true -> ra <> eip) /\          (* the context frame has no leftover return address on top *)
@@ -91,4 +95,34 @@ Fixpoint fpo_chain (gcps esp ebp : Z) (acts : list act) : list xregs :=
   | (i, ps, ra) :: rest =>
       let sp' := esp + (w_locals i + w_saved i + gcps) + 4 in
       mkX ra sp' ebp :: fpo_chain (psz ps) sp' ebp rest
+  end.
+
+(* ---- the same with both kinds of FPO record (allocates_base_pointer = false: ebp passed through; = true: the caller's
+   ebp is the word at esp + gcps + saved_register_size - 8).  An activation additionally names the ebp its caller resumes with. *)
+Definition act_bp := (win_info * option Z * Z * Z)%type.
+
+Fixpoint fpo_layout_bp (mem : Z -> option Z) (in_stack : Z -> bool) (lookup : Z -> option (win_info * option Z))
+                       (ctx : bool) (gcps eip esp ebp : Z) (acts : list act_bp) : Prop :=
+  match acts with
+  | [] => True
+  | (i, ps, ra, bp') :: rest =>
+      let F := w_locals i + w_saved i + gcps in
+      lookup eip = Some (i, ps) /\ (ctx = false -> in_stack esp = true) /\
+      win_frame_size i gcps = Some F /\ 0 <= w_locals i /\ 0 <= w_saved i /\ 0 <= gcps /\
+      mem (esp + F) = Some ra /\ 4096 <= ra < 2 ^ 32 /\ esp + F + 4 < 2 ^ 32 /\
+      (ctx = true -> ra <> eip) /\
+      match w_thing i with
+      | AllocatesBasePointer true => 0 <= esp + gcps + w_saved i - 8 /\ mem (esp + gcps + w_saved i - 8) = Some bp'
+      | AllocatesBasePointer false => bp' = ebp
+      | ProgramString _ => False
+      end /\ bp' < 2 ^ 32 /\
+      fpo_layout_bp mem in_stack lookup false (psz ps) ra (esp + F + 4) bp' rest
+  end.
+
+Fixpoint fpo_chain_bp (gcps esp : Z) (acts : list act_bp) : list xregs :=
+  match acts with
+  | [] => []
+  | (i, ps, ra, bp') :: rest =>
+      let sp' := esp + (w_locals i + w_saved i + gcps) + 4 in
+      mkX ra sp' bp' :: fpo_chain_bp (psz ps) sp' rest
   end.
